@@ -277,6 +277,43 @@ func checkC08(c *run.Ctx) {
 					return
 				}
 				c.Count("programmatic_mapss_roundtrips", 1)
+				// other value types: floats (integral ones come back from the decoder as ints first), string lists,
+				// and the shallow form that keeps value nodes undecoded
+				fm := ordered.NewMap[string, float64](0)
+				lm := ordered.NewMap[string, []string](0)
+				for j, p := range tree.Map {
+					fm.Set(p.Key, []float64{float64(j), float64(j) + 0.5, -3, 1e21, 0}[j%5])
+					lm.Set(p.Key, []string{p.Key, "x"}[:1+j%2])
+				}
+				fb1, ferr1 := json.Marshal(fm)
+				fb2, ferr2 := yaml.Marshal(fm)
+				f1, f2 := ordered.NewMap[string, float64](0), ordered.NewMap[string, float64](0)
+				if ferr1 != nil || ferr2 != nil || f1.UnmarshalJSON(fb1) != nil || yaml.Unmarshal(fb2, f2) != nil || !ordered.Equal(fm, f1) || !ordered.Equal(fm, f2) {
+					c.Violation(id, map[string]any{"what": "map of floats differs after encode/decode", "json": clip(string(fb1), 2000), "yaml": clip(string(fb2), 2000)})
+					return
+				}
+				lb1, lerr1 := json.Marshal(lm)
+				lb2, lerr2 := yaml.Marshal(lm)
+				l1, l2 := ordered.NewMap[string, []string](0), ordered.NewMap[string, []string](0)
+				if lerr1 != nil || lerr2 != nil || l1.UnmarshalJSON(lb1) != nil || yaml.Unmarshal(lb2, l2) != nil || !ordered.Equal(lm, l1) || !ordered.Equal(lm, l2) {
+					c.Violation(id, map[string]any{"what": "map of string lists differs after encode/decode", "json": clip(string(lb1), 2000), "yaml": clip(string(lb2), 2000)})
+					return
+				}
+				nm := ordered.NewMap[string, *yaml.Node](0)
+				if err := yaml.Unmarshal(yb, nm); err != nil {
+					c.Violation(id, map[string]any{"what": "shallow decode (values kept as nodes) of own YAML output: " + err.Error(), "yaml": clip(string(yb), 4000)})
+					return
+				}
+				var gotKeys, wantKeys []string
+				_ = nm.Range(func(k string, _ *yaml.Node) error { gotKeys = append(gotKeys, k); return nil })
+				for _, p := range tree.Map {
+					wantKeys = append(wantKeys, p.Key)
+				}
+				if fmt.Sprintf("%q", gotKeys) != fmt.Sprintf("%q", wantKeys) {
+					c.Violation(id, map[string]any{"what": fmt.Sprintf("shallow decode: keys %q, want %q", gotKeys, wantKeys)})
+					return
+				}
+				c.Count("programmatic_typed_value_roundtrips", 3)
 			}
 		})
 	})
